@@ -40,6 +40,7 @@ type Case struct {
 	NProxies   int    `json:"nproxies"`
 	Sends      []Send `json:"sends"`
 	CutAt      int    `json:"cut_at"` // >= 0: the current work connection is killed before send #CutAt (udp, tcpMux off)
+	CutPauseMs int    `json:"cut_pause_ms"` // the script pauses this long after the cut (longer than the re-establishment window: everything after must arrive)
 }
 
 func gen(t *rapid.T) Case {
@@ -74,6 +75,7 @@ func gen(t *rapid.T) Case {
 	}
 	if c.Kind == "udp" && !c.TCPMux && n >= 4 && rapid.IntRange(0, 3).Draw(t, "fault") == 0 {
 		c.CutAt = rapid.IntRange(1, n-1).Draw(t, "cutat")
+		c.CutPauseMs = rapid.SampledFrom([]int{0, 1800}).Draw(t, "cutpause")
 	}
 	return c
 }
@@ -141,7 +143,7 @@ func limitLightLoad(c Case) bool {
 }
 
 func brief(c Case) string {
-	return fmt.Sprintf("[kind=%s enc=%v comp=%v tcpMux=%v limit=%q packetSize=%d users=%d proxies=%d sends=%d cutAt=%d]", c.Kind, c.Enc, c.Comp, c.TCPMux, c.Limit, c.PacketSize, c.NUsers, c.NProxies, len(c.Sends), c.CutAt)
+	return fmt.Sprintf("[kind=%s enc=%v comp=%v tcpMux=%v limit=%q packetSize=%d users=%d proxies=%d sends=%d cutAt=%d cutPause=%dms]", c.Kind, c.Enc, c.Comp, c.TCPMux, c.Limit, c.PacketSize, c.NUsers, c.NProxies, len(c.Sends), c.CutAt, c.CutPauseMs)
 }
 
 func run(c Case) error {
@@ -306,7 +308,7 @@ func run(c Case) error {
 				return fx.Inconclusive("no work connection to cut")
 			}
 			cutTime = time.Now()
-			time.Sleep(time.Duration(sd.GapUs) * time.Microsecond)
+			time.Sleep(time.Duration(c.CutPauseMs)*time.Millisecond + time.Duration(sd.GapUs)*time.Microsecond)
 		} else if sd.GapUs > 0 {
 			time.Sleep(time.Duration(sd.GapUs) * time.Microsecond)
 		}
